@@ -417,6 +417,21 @@ func runC19(c *h.Ctx) {
 				}
 			}
 			cs.Cover("writeanywithdesc_calls")
+			// the same value with integer-keyed maps spelled map[int8|int16|int32|int64]interface{}: every documented
+			// Go spelling of a map must give the same encoding
+			if opt&2 == 0 {
+				typed := ToGo(v, root, GoCfg{ByteAsUint8: u8, FieldName: fn, TypedIntKey: true})
+				out2, err := bpWrite(func(p *thrift.BinaryProtocol) error { return p.WriteAnyWithDesc(desc, typed, false, true, fn) })
+				if err != nil {
+					if !(!u8 && cls.hasByte) { // int8 inside: recorded above
+						cs.Viol("withdesc:WriteAnyWithDesc:typed-int-keys:err", "err", err, "go", GoStr(typed))
+					}
+				} else if d2, e2 := tref.Decode(out2, tref.STRUCT); e2 != nil || !tref.EqualUnordered(d2, v) {
+					cs.Viol("withdesc:WriteAnyWithDesc:typed-int-keys:value", "decode-error", e2, "out", out2, "want", v.String())
+				} else {
+					cs.Cover("writeanywithdesc_typed_int_keys_ok")
+				}
+			}
 		}
 		cs.Distinct("wd-" + shapeKey(v))
 		if cs.I == 2 {
